@@ -267,7 +267,8 @@ void data_fill(uint8_t *buf, uint64_t len, int kind, rng_t *r, int k, uint64_t p
 int lengths_for(uint64_t A, int thorough, rng_t *r, uint64_t *out, int max)
 {
     int n = 0;
-    uint64_t fixed[] = { 0, 1, A - 1, A, A + 1, 2 * A - 1, 2 * A, 3 * A + 1, 16 * A, 16 * A + 7 };
+    uint64_t fixed[] = { 0, 1, A - 1, A, A + 1, 2 * A - 1, 2 * A, 3 * A + 1, 16 * A, 16 * A + 7,
+                         3 * A, 5 * A - 1, 6 * A, 7 * A, 9 * A - 2, 11 * A, 13 * A, 15 * A - 1 };   /* payload residues */
     for (size_t i = 0; i < sizeof fixed / sizeof fixed[0] && n < max; i++) {
         int dup = 0;
         for (int j = 0; j < n; j++) if (out[j] == fixed[i]) dup = 1;
@@ -366,8 +367,8 @@ int std_lengths(const cfg_t *c, uint64_t *lens, int *kinds, int max, int few)
 {
     rng_t r; rng_seed(&r, MO.seed, (uint64_t)(c->be * 1000003 + c->k * 1009 + c->m * 31 + c->hd));
     uint64_t A = (uint64_t)c->k * (uint64_t)ref_word_bytes(c->be);
-    uint64_t all[32];
-    int n = lengths_for(A, MO.thorough, &r, all, 32);
+    uint64_t all[40];
+    int n = lengths_for(A, MO.thorough, &r, all, 40);
     int out = 0;
     if (few) {
         /* unaligned small, aligned, one random */
@@ -384,3 +385,17 @@ int std_lengths(const cfg_t *c, uint64_t *lens, int *kinds, int max, int few)
     return out;
 }
 
+
+int payload_sweep_lengths(const cfg_t *c, uint64_t *lens, int *kinds, int max)
+{
+    uint64_t W = (uint64_t)ref_word_bytes(c->be), k = (uint64_t)c->k;
+    int n = 0;
+    for (uint64_t P = W; P <= 32 + W && n < max; P += W) { lens[n] = k * P - (n % 3 == 1 && k * P > 1 ? 1 : 0); kinds[n] = n % 4 == 3 ? DATA_HIGH : DATA_RANDOM; n++; }
+    static const uint64_t around[] = { 64, 128, 1024 };
+    for (int a = 0; a < 3; a++) for (int d = -1; d <= 1 && n < max; d++) {
+        uint64_t P = around[a] + (uint64_t)((int64_t)d * (int64_t)W);
+        P -= P % W;
+        lens[n] = k * P - (d == 0 ? 0 : 1); kinds[n] = DATA_RANDOM; n++;
+    }
+    return n;
+}
